@@ -857,6 +857,98 @@ pub fn raw_pred_case() -> impl Strategy<Value = RawPredCase> {
         .prop_map(|(sched, seed, ret_one, code, data, declared_gas, max_gas_per_predicate)| RawPredCase { sched, seed, ret_one, code, data, declared_gas, max_gas_per_predicate })
 }
 
+// ---------------------------------------------------------------- asset counts vs max_inputs
+
+/// A checked, ready script whose inputs use many distinct assets: the balance table the VM
+/// writes at initialisation has `max_inputs` entries.
+#[derive(Debug, Clone, Serialize, Deserialize)]
+pub struct AssetsCase {
+    pub max_inputs: u16,
+    /// number of coin inputs (clipped to max_inputs)
+    pub inputs: u16,
+    /// number of distinct non-base assets among them (clipped to inputs)
+    pub assets: u16,
+    /// one of the inputs is a base-asset coin
+    pub with_base: bool,
+    pub max_fee: u64,
+}
+
+fn assets_case() -> impl Strategy<Value = AssetsCase> {
+    (prop_oneof![3 => 1u16..6, 1 => Just(16u16), 1 => Just(255u16)], any::<u16>(), any::<u16>(), any::<bool>(), prop_oneof![3 => Just(0u64), 1 => 0u64..1000])
+        .prop_map(|(max_inputs, i, a, with_base, max_fee)| {
+            // bias towards full tables: inputs == max_inputs, all distinct
+            let inputs = if i % 3 == 0 { 1 + i % max_inputs } else { max_inputs };
+            let assets = if a % 3 == 0 { 1 + a % inputs } else { inputs };
+            AssetsCase { max_inputs, inputs, assets, with_base, max_fee }
+        })
+}
+
+fn assets_check(c: &AssetsCase, obs: &mut Obs) -> Check {
+    let mut params = ConsensusParameters::standard();
+    let mut txp = *params.tx_params();
+    txp = txp.with_max_inputs(c.max_inputs);
+    params.set_tx_params(txp);
+    let mut tb = TransactionBuilder::script(vec![op::ret(RegId::ONE)].into_iter().collect(), vec![]);
+    tb.with_params(params.clone());
+    tb.script_gas_limit(10_000);
+    tb.max_fee_limit(c.max_fee);
+    let n = c.inputs.min(c.max_inputs).max(1);
+    let secret = world::secret(0);
+    for k in 0..n {
+        let asset = if c.with_base && k == 0 {
+            AssetId::zeroed()
+        } else {
+            let a = 1 + (k % c.assets.max(1));
+            let mut b = [0xA5u8; 32];
+            b[0] = (a >> 8) as u8;
+            b[1] = a as u8;
+            AssetId::from(b)
+        };
+        let mut id = [0x77u8; 32];
+        id[0] = (k >> 8) as u8;
+        id[1] = k as u8;
+        tb.add_unsigned_coin_input(secret, UtxoId::new(Bytes32::from(id), k), 1_000_000, asset, TxPointer::default());
+    }
+    let tx = tb.finalize();
+    let checked = match tx.into_checked(BlockHeight::from(1u32), &params) {
+        Ok(c) => c,
+        Err(_) => {
+            obs.class("assets:rejected-by-check");
+            return Ok(());
+        }
+    };
+    let ready = match checked.into_ready(0, params.gas_costs(), params.fee_params(), None) {
+        Ok(r) => r,
+        Err(_) => {
+            obs.class("assets:not-ready");
+            return Ok(());
+        }
+    };
+    let distinct = c.assets.min(n) as usize + 1; // the base asset always has an entry
+    if distinct > c.max_inputs as usize {
+        obs.class("assets:more-assets-than-max-inputs");
+        obs.nontrivial(&(c.max_inputs, n, c.assets, c.with_base));
+    }
+    let mut vm = fuel_vm::interpreter::Interpreter::<_, _, Script>::with_storage(
+        MemoryInstance::new(),
+        MemoryStorage::default(),
+        fuel_vm::interpreter::InterpreterParams::new(0, &params),
+    );
+    // a host panic is caught by the engine and keyed by its location
+    match vm.transact(ready) {
+        Ok(st) => {
+            obs.class("assets:executed");
+            let _ = st.state();
+        }
+        Err(e) => {
+            let s = format!("{e:?}");
+            ensure!(!s.contains("Bug"), "bug-error:asset-counts", "internal bug error: {s}");
+            obs.class("assets:specified-rejection");
+        }
+    }
+    Ok(())
+}
+
 pub fn property() -> Property {
     Property {
         id: "C29",
@@ -873,6 +965,7 @@ pub fn property() -> Property {
             gen_part("wild-worlds", "G-PROG with 40-95% wild templates", (3_000, 40_000), |_c: &Ctx| wild_world(), wild_check),
             gen_part("floods", "receipt floods, recursion, exhaustion", (300, 3_000), |_c: &Ctx| flood_case(), flood_check),
             gen_part("planted-instruction", "opcode × fields × register file", (40_000, 1_000_000), |_c: &Ctx| plant_case(), plant_check),
+            gen_part("asset-counts", "checked scripts with max_inputs coin inputs over 1..=max_inputs distinct assets, with / without a base-asset input", (6_000, 100_000), |_c: &Ctx| assets_case(), assets_check),
             gen_part("raw-predicates", "raw predicate bytes", (4_000, 100_000), |_c: &Ctx| raw_pred_case(), raw_pred_check),
         ],
         floors: vec![
